@@ -17,7 +17,7 @@ EXPLANATION = (
     "only after a negative one. C09.b (no hidden driver state): _initialize is reachable from run_model only under "
     "initialize_model; run_model / _perform_timestep contain no global / nonlocal statement and keep no state outside "
     "self.*; the only extra state of step mode (__steps_are_finished) is written only under process_outputs is True. "
-    "C09.c: get_simulation_results hands out the seasonal summary (directly or through a local) only on paths through the 'model has finished' edge (edge removal). NOT decided: "
+    "C09.c: get_simulation_results hands out the seasonal summary (directly or through a local) only on paths through the 'model has finished' edge (edge removal). C09.e: the drivers change nothing but their own bookkeeping - every store of run_model is a local, a private status attribute, or the re-binding of the four state objects to the result of _perform_timestep, and every call on the model object is _initialize or _perform_timestep (a summary row appended after one driver's loop, or a setting cleared on the paused path, is reported). NOT decided: "
     "equality of the produced tables (follows from a+b by determinism of the step, C10).")
 
 
@@ -143,6 +143,46 @@ def run(chk, prog, tier):
                           f"({'redefined by ' + '; '.join(redef) if redef else 'bound is not the parameter'}): k steps requested are not k steps taken, so a "
                           "partitioned run simulates other days than the uninterrupted one", loc=fi.loc(n.ast))
     chk.floor("C09.d", nloop, 1, "step-count loops around _perform_timestep")
+
+    # ------------------------------------------------------------ C09.e
+    # the drivers themselves change nothing but their own bookkeeping: every store of run_model is a local, one of the private status
+    # attributes (`self.__x`), or the re-binding of the four state objects to the result of _perform_timestep; every call on the model
+    # object is _initialize or _perform_timestep. A driver branch that writes model state or an output table of its own (a summary row
+    # appended after the loop, a setting cleared on the paused path) makes the result depend on how the run was driven.
+    STATE_ATTRS = ("_clock_struct", "_init_cond", "_param_struct", "_outputs")
+    n_e = 0
+    for a in walk_no_nested(fi.node):
+        tgts = []
+        if isinstance(a, ast.Assign):
+            tgts = a.targets
+        elif isinstance(a, (ast.AugAssign, ast.AnnAssign)):
+            tgts = [a.target]
+        for t in tgts:
+            elts = t.elts if isinstance(t, (ast.Tuple, ast.List)) else [t]
+            for e in elts:
+                if isinstance(e, ast.Name):
+                    continue
+                n_e += 1
+                construct = f"{norm(e)} = ..."
+                is_self_attr = isinstance(e, ast.Attribute) and isinstance(e.value, ast.Name) and e.value.id == "self"
+                if is_self_attr and (e.attr.startswith("__") or e.attr.startswith("_AquaCropModel__")):
+                    chk.ok("C09.e", fi.key, construct, "private status attribute of the driver")
+                elif is_self_attr and e.attr in STATE_ATTRS and isinstance(a, ast.Assign) and any(a.value is c for c in steps):
+                    chk.ok("C09.e", fi.key, construct, "state object re-bound to the result of the daily step")
+                else:
+                    chk.violation("C09.e", fi.key, norm(a)[:90], "a driver of run_model writes model state / an output table itself (not through the daily step): one "
+                                  "uninterrupted run and the same days taken in several calls no longer go through the same statements", loc=fi.loc(a))
+        if isinstance(a, ast.Call) and isinstance(a.func, ast.Attribute):
+            root = a.func
+            while isinstance(root, (ast.Attribute, ast.Subscript, ast.Call)):
+                root = root.func if isinstance(root, ast.Call) else root.value
+            if isinstance(root, ast.Name) and root.id == "self":
+                n_e += 1
+                if isinstance(a.func.value, ast.Name) and a.func.attr in ("_initialize", "_perform_timestep"):
+                    chk.ok("C09.e", fi.key, f"{norm(a.func)}()", "initialisation / the daily step")
+                else:
+                    chk.violation("C09.e", fi.key, norm(a)[:90], "a driver of run_model calls into the model's objects itself (not through the daily step)", loc=fi.loc(a))
+    chk.floor("C09.e", n_e, 8, "stores and model calls of run_model")
 
     # ------------------------------------------------------------ C09.b
     inits = _calls_of(prog, fi, "_initialize")
